@@ -263,6 +263,11 @@ func (e *Eng) concretize(t *Term, limit uint64) uint64 {
 	if t.IsConst() {
 		return t.C
 	}
+	if e.path != nil {
+		if r := e.path.binds.rewrite(t, e.tb); r.IsConst() {
+			return r.C
+		}
+	}
 	// ask the solver for a value, then decide "t == v"; the other side explores the rest
 	for n := uint64(0); ; n++ {
 		if n > limit {
